@@ -25,6 +25,10 @@ class CaseTimeout(BaseException):
     """A single case exceeded its generous wall-clock guard: inconclusive, never a verdict."""
 
 
+class ShardAbort(BaseException):
+    """Too many case timeouts in this shard: stop the shard, the run is inconclusive."""
+
+
 class _Guard:
     def __init__(self, ctx, seconds, what):
         self.ctx, self.seconds, self.what = ctx, seconds, what
@@ -47,6 +51,9 @@ class _Guard:
         if et is CaseTimeout:
             self.ctx.count("case_timeouts")
             self.ctx.inconc(f"case exceeded {self.seconds}s guard", self.what if self.what is not None else self.ctx.current_case)
+            if self.ctx.counters.get("case_timeouts", 0) >= 3:
+                self.ctx.count("shard_aborted")
+                raise ShardAbort()
             return True
         return False
 
